@@ -154,6 +154,7 @@ class _Builder:
         self.tags: set[str] = set()
         self.arch: list[str] = []
         self.swap_parents = lambda: False
+        self.no_recipient = lambda: False
 
     def new_hh(self, **attrs) -> int:
         self.hh.append(attrs)
@@ -195,8 +196,13 @@ class _Builder:
         self.rows[c]["e1"] = p1
         self.rows[c]["e2"] = p2
         self.rows[c]["kg"] = p1 if kg is None else kg
-        # which parent sits in which of the two parent columns carries no meaning
-        if p2 >= 0 and self.swap_parents():
+        # now and then the recipient of the child benefit is not in the table (-1 is the documented
+        # "no such person" value of every pointer column)
+        if self.no_recipient():
+            self.rows[c]["kg"] = -1
+        # which parent sits in which of the two parent columns carries no meaning - also when only one
+        # parent is in the table (mother = column 1, father = column 2 conventions leave column 1 empty)
+        if self.swap_parents():
             self.rows[c]["e1"], self.rows[c]["e2"] = p2, p1
 
 
@@ -689,6 +695,7 @@ def populations(draw, date, mode="branch", max_households=5, max_children=4,
     archs = archetypes or ARCHETYPES
     n_hh = draw(st.integers(1, max_households))
     b.swap_parents = lambda: draw(st.booleans())
+    b.no_recipient = lambda: draw(st.integers(0, 7)) == 0
     for _ in range(n_hh):
         if len(b.hh) >= max_households:
             break
